@@ -87,3 +87,13 @@ Lemma sqlite_lowered_frequency_shadowed :
     s_lookup k (spec_run [] ops) = [mkPhrase ce 50 (Some 7)] /\
     sq_lookup (fst (sq_run sq_empty ops)) k USIZE_MAX = [mkPhrase ce 100 (Some 7)].
 Proof. exists ops_sq, K1. vm_compute. repeat split. Qed.
+
+(* open finding (KNOWN_FINDINGS C09-prefix-lookup-returns-removed-phrase): a TrieBuf over a file that holds (ㄘㄜˋ, 測);
+   the phrase is removed; the exact lookup no longer returns it, the prefix lookup of ㄘ still does - on the model of
+   the CURRENT code (`fixed`): the tombstone is looked up under the query key *)
+Lemma prefix_lookup_returns_removed_phrase :
+  let tb := final fixed (tb_open (trie_build [(K1, mkPhrase ce 5 None)])) [ORemove K1 ce] in
+  s_lookup K1 (spec_run (spec_of_trie (trie_build [(K1, mkPhrase ce 5 None)])) [ORemove K1 ce]) = [] /\
+  tb_lookup fixed tb K1 USIZE_MAX Standard = [] /\
+  tb_lookup fixed tb Kc USIZE_MAX FuzzyPartialPrefix = [mkPhrase ce 5 None].
+Proof. vm_compute. repeat split. Qed.
